@@ -10,6 +10,12 @@ def repo_fix_and_hook_commits():
     return hooks
 
 CHECKS = {
+ 'C08': dict(level='exploration', design='6 C08', technique='deterministic simulation (refinement): seeded protocol call sequences through 1-3 handles on each real backend behind a proxy that compares every reply with the reference chain model; handles reopened at seeded points; whole replicas through the backends',
+   text='Every reply of the local, object-store and git (local-only / shared remote) servers to add-version, get-child-version, add-snapshot and get-snapshot is compared with the single-copy chain model (acceptance rule, rejection names latest and changes nothing, child versions byte for byte incl. empty / non-UTF-8 / 1MB payloads, unknown parent, snapshots as stored); a fresh handle re-reads the chain at the end; a third of the runs drive whole replicas through the backend and require convergence with the mirror.',
+   note='The HTTP client leg is not part of this check yet (see DESIGN.md section 9); object store in memory via the hook; git uses the real git binary.'),
+ 'C11': dict(level='fault_enumeration', design='6 C11', technique='deterministic simulation with fault injection: every internal step of add_version/add_snapshot in the local, object-store and git backends (object-store requests; hook failpoints between database statements, git commands and file writes) interrupted with each fault kind; handles reopened; resync, protocol conformance via the proxy, convergence and bounded liveness',
+   text='For each sampled sync through a real backend the backend-internal steps are enumerated by a fault-free run and then interrupted one by one (fail before, done-then-fail, stop); afterwards all handles are reopened, the interrupted replica syncs again and must reach the uninterrupted outcome, every reply is checked against the chain model (an unacknowledged version may only appear in full), and all replicas must converge within the liveness bound.',
+   note='Process stop inside the local and git backends is an error return at a hook failpoint (no backend code runs after it); kills inside a running git child are not exercised. One recorded known finding (git with shared remote, stop between commit and push).'),
  'C09': dict(level='exploration', design='6 C09', technique='deterministic simulation: 2-4 real CloudServer clients over a gated in-memory object store, every request and list page a scheduling point; chain-specific linearizability oracle over the invoke/return history and the log of compare-and-swaps on latest',
    text='Seeded interleavings at single get/put/delete/list-page/compare-and-swap granularity with seeded listing order and page sizes; oracles: one accepted child per parent, accepted on the then-latest, every accepted version on the final chain, reads return only chain versions under the requested parent with the submitted bytes and never before commit, no-such-version and rejections are consistent with what was latest during the call, a fresh client walks the full chain.',
    note='Hook: taskchampion::server::verif (in-memory Service behind a Gate). The object store is linearizable per request; cloud/aws.rs and cloud/gcp.rs adapters never run. Cleanup is disabled here (C10).'),
